@@ -4,7 +4,9 @@ from .terms import Ctx, lin_add, lin_sub, num, show, base_ty, ty_of, deref
 from .common import (P, F, LEN, SIZE, rule_index_kinds, rule_elementwise, effects, elem_ref, loop_var_ranges, same_dim,
                      forwards_to, callee_path, callee_generic, call_args, is_call_like, adt_of, OP_OF_TRAIT, single_expr_body,
                      ctor_summary, eq_classes, in_macro)
-from .guards import for_range, facts
+from .guards import facts
+from .guards import for_range as raw_for_range
+from .common import for_range_total as for_range
 
 LEVEL = "other"
 MATRIX_FILES = ("src/matrix/mod.rs", "src/matrix/operations.rs", "src/matrix/arithmetic.rs", "src/matrix/functions.rs")
